@@ -228,7 +228,7 @@ def part_a(tier, seed, rng, rep, cov, jobs, tj):
                     rep.spec_drift("DepTree result != closure", c)
                     break
         # replay on the real DependencyTree with injected edges
-        sel3 = cases3 if not quick else core.sample(cases3, 40000, rng)
+        sel3 = cases3 if not quick else core.sample(cases3, 24000, rng)
         st1, mm1 = run_memo_children(sel3 + filecases, "memo", jobs)
         for m in mm1:
             rep.disagree(memo_desc(m, "fake"), m["what"], m)
@@ -263,8 +263,8 @@ def part_a(tier, seed, rng, rep, cov, jobs, tj):
         # the complete 4-node sweep on the real object (spec invariants as the oracle)
         total = 1 << 16
         if quick:
-            lo = rng.randrange(0, total - total // 8)
-            ranges = [(lo + i * (total // 8 // jobs), lo + (i + 1) * (total // 8 // jobs)) for i in range(jobs)]
+            lo = rng.randrange(0, total - total // 16)
+            ranges = [(lo + i * (total // 16 // jobs), lo + (i + 1) * (total // 16 // jobs)) for i in range(jobs)]
         else:
             ranges = [(i * total // jobs, (i + 1) * total // jobs) for i in range(jobs)]
 
@@ -298,7 +298,7 @@ def part_a(tier, seed, rng, rep, cov, jobs, tj):
             "memo_cases_fake": int(st1["cases"]), "memo_queries_fake": int(st1["queries"]),
             "memo_cases_realfiles": int(st2["cases"]), "memo_queries_realfiles": int(st2["queries"]),
             "sweep4_cases": int(st3["cases"]), "sweep4_queries": int(st3["queries"]),
-            "sweep4_range": "all 65536 edge sets" if not quick else "a random eighth of the 65536 edge sets",
+            "sweep4_range": "all 65536 edge sets" if not quick else "a random sixteenth (contiguous id range) of the 65536 edge sets",
             "memo_keyset_differs_from_transcription": int(st1["keyset_differs"] + st2["keyset_differs"]),
             "selftest_memo": {"corrupted": len(bad), "rejected": len(mb)},
             "nontrivial": len(nontriv),
@@ -387,9 +387,9 @@ def part_b(tier, seed, rng, rep, cov, jobs, tj):
     core.write_ndjson(initf, [random_tree(rng) for _ in range(12 if quick else 60)])
     tj.tlc("bsmall", "DepTreeBuild", cfg="DepTreeBuild_small" if quick else "DepTreeBuild_deep", workers=6 if quick else core.NCPU,
            coverage=True, timeout=5000)
-    want = 48 if quick else 640
+    want = 40 if quick else 640
     # stops as soon as max_records histories are there; `seconds` is only the safety net
-    tj.sim("bsim", "DepTreeBuild", "DepTreeBuild_sim", seconds=150 if quick else 900, depth=14, workers=4,
+    tj.sim("bsim", "DepTreeBuild", "DepTreeBuild_sim", seconds=400 if quick else 1500, depth=14, workers=4,
            env={"DB_INIT": initf}, seed=seed, max_records=want * 2)
 
     def finish():
@@ -495,7 +495,7 @@ def part_c(tier, seed, rng, rep, cov, jobs, tj):
     wd = core.subdir("c46")
     tj.tlc("forms", "DepTreeSrc", cfg="DepTreeSrc_forms", workers=4, coverage=True, timeout=3000)
     tj.tlc("lex", "DepTreeSrc", cfg="DepTreeSrc_lex5" if quick else "DepTreeSrc_lex", workers=6 if quick else core.NCPU, coverage=True, timeout=5000)
-    tj.sim("ssim", "DepTreeSrc", "DepTreeSrc_sim", seconds=150 if quick else 900, depth=45, workers=4, seed=seed,
+    tj.sim("ssim", "DepTreeSrc", "DepTreeSrc_sim", seconds=400 if quick else 1500, depth=45, workers=4, seed=seed,
            max_records=600 if quick else 20000)
 
     def finish():
